@@ -82,11 +82,18 @@ def make_filter(name, env):
 def gen_case(rng):
     kind = rng.choice(["Container", "Container", "Store", "PriorityStore", "FilterStore", "FilterStore"])
     nproc = rng.randint(1, 8)
+    amounts = [1, 1, 2, 3, 5]
     if kind == "Container":
         cap = rng.choice([1, 3, 5, 10, 10, INF])
         init = rng.choice([0, 0, 1, 2, 5, 8])
         if init > cap:
             init = cap if cap != INF else 0
+        if rng.random() < 0.3:
+            # continuous matter: fractions, tiny amounts, amounts that miss the level / the free room by less
+            # than any "tolerance" (the guards of the statement are exact)
+            amounts = [0.5, 0.25, 1.5, 5e-10, 1e-12, 1.0000000005, 0.1, 0.2, 0.30000000000000004, 2]
+            cap = rng.choice([1, 1.5, 3, 0.3])
+            init = rng.choice([0, 0, cap, 0.5 if cap >= 0.5 else 0])
     else:
         cap = rng.choice([1, 2, 3, 3, INF])
         init = 0
@@ -101,7 +108,7 @@ def gen_case(rng):
             its.append({
                 "delay": rng.choice(GRID) if not deep else rng.choice([0, 0, 0, 1]),
                 "op": "put" if rng.random() < bias else "get",
-                "amount": rng.choice([1, 1, 2, 3, 5]),
+                "amount": rng.choice(amounts),
                 "key": rng.choice([1, 1, 2, 3]) if not deep else rng.randint(1, 9),
                 "filter": rng.choice(FILTERS) if rng.random() < 0.8 else "any",
                 "patience": rng.choice([None, None, 0, 1, 2, 3]),
@@ -109,7 +116,8 @@ def gen_case(rng):
             })
         procs.append(its)
     pokes = [[rng.choice([0.5, 1, 2, 3, 4, 5]), rng.randrange(nproc)] for _ in range(rng.randint(0, 4))]
-    return {"kind": kind, "capacity": "inf" if cap == INF else cap, "init": init, "procs": procs, "pokes": sorted(pokes)}
+    return {"kind": kind, "capacity": "inf" if cap == INF else cap, "init": init, "procs": procs, "pokes": sorted(pokes),
+            "float_amounts": amounts[0] == 0.5}
 
 
 class Ledger:
@@ -397,6 +405,8 @@ def one_case(ctx, case):
     for k in KEYS:
         ctx.count(k, stats[k])
     ctx.count("kind_" + case["kind"])
+    if case.get("float_amounts"):
+        ctx.count("container_float_amount_cases")
     nt = stats["granted_after_waiting"] >= 1 and stats["cancels_waiting"] >= 1 and stats["grants"] >= 6
     return lg.viol, nt
 
